@@ -366,6 +366,12 @@ def w_combo(d, fname="combo.hdf"):
     p.call("i", "ANcreate", V("an"), 1000, 1, 1, bind="n")
     p.call("i", "ANwriteann", V("n"), b"a description", 13)
     p.call("i", "ANendaccess", V("n"))
+    p.call("i", "ANcreatef", V("an"), 3, bind="n")
+    p.call("i", "ANwriteann", V("n"), b"file description", 16)
+    p.call("i", "ANendaccess", V("n"))
+    p.call("i", "ANcreate", V("an"), 1000, 1, 0, bind="n")
+    p.call("i", "ANwriteann", V("n"), b"object label", 12)
+    p.call("i", "ANendaccess", V("n"))
     p.call("i", "ANend", V("an"))
     p.call("i", "Hclose", V("f"))
     return p, [f, os.path.join(d, "combo.ext")]
